@@ -512,6 +512,8 @@ func PrintCmds(cfg *printer.Config, cmds []ast.Command) (string, error) {
 	return b.String(), nil
 }
 
+func printerFprint(w *errWriter, n ast.Node) error { return printer.Fprint(w, n) }
+
 func itoa(n int) string { return strconv.Itoa(n) }
 
 func posStr(p ast.Pos) string { return itoa(p.Line()) + ":" + itoa(p.Col()) }
